@@ -17,7 +17,8 @@ def gen_case(rng, big=False, many_shards=False):
         nid[0] += 3          # ids 3 apart: block contents are unrelated (consecutive ids give shifted copies, see "related")
         return "%d:%d" % (nid[0], n)
 
-    for s in range(rng.choice([1, 1, 2])):
+    all_prev = []
+    for s in range(rng.choice([1, 1, 2, 2])):
         nfiles = rng.choice([1, 2, 3, 5]) if not many_shards else rng.choice([3, 5, 6])
         # how many store calls to expect: roughly one put per 60000 bytes, plus one at finalize
         kind = rng.choice(["none", "none", "put", "put", "put2", "shard", "delay", "putdelay"])
@@ -33,7 +34,15 @@ def gen_case(rng, big=False, many_shards=False):
             fs = [1] if not many_shards else sorted(set(rng.randrange(1, 5) for _ in range(rng.choice([1, 1, 2]))))
         if kind in ("delay", "putdelay"):
             dp = ["%d:%d" % (rng.randrange(1, nput_guess), rng.choice([5, 20, 40])) for _ in range(rng.choice([1, 2, 3]))]
-        ops.append("S fp=%s fs=%s dp=%s" % (",".join(map(str, fp)) or "-", ",".join(map(str, fs)) or "-", ",".join(dp) or "-"))
+        # a later session under another repository salt that uploads what an earlier session uploaded: new file hashes, every
+        # chunk known -- the session's leftover at finalize is records only
+        resalt = s > 0 and all_prev and rng.random() < 0.5
+        ops.append("S fp=%s fs=%s dp=%s%s" % (",".join(map(str, fp)) or "-", ",".join(map(str, fs)) or "-", ",".join(dp) or "-", " salt=%d" % rng.randrange(1, 200) if resalt else ""))
+        if resalt:
+            for f, r in enumerate(rng.sample(all_prev, min(len(all_prev), rng.choice([1, 2])))):
+                ops.append("f n%d_%d %s" % (s, f, r))
+            ops.append("E")
+            continue
         prev = []
         for f in range(nfiles):
             k = rng.choice(["fresh", "fresh", "big", "related", "small", "again"])
@@ -50,6 +59,7 @@ def gen_case(rng, big=False, many_shards=False):
             else:
                 r = fresh(rng.choice([20000, 70000, 130000]))
             prev.append(r)
+            all_prev.append(r)
             ops.append("f n%d_%d %s" % (s, f, r))
         ops.append("E")
     return " | ".join(ops)
